@@ -9,6 +9,15 @@
       -> ok <n>                      every key: model value agrees with <impl> (relative <tol>)
        | differs <KEY>=<model> ...   keys that disagree
        | unmodelled <KEY> ...        keys whose table entry contains a leaf the model does not cover
+    sumfuns.xnode <kind:S|G|F|R> <node> <num> <dt> <tol>
+        G <n> {...}*  W <n> {...}*                        as in sumfuns.node
+        SC <n> { <well> <k> { <global index> <complnum> }* }*         schedule connections
+        X <n> { <well> <S|O> <P|I> <nc> { <index> <k> { <rt> <q> }* <resv> <pressure> }*
+                <ns> { <segment> <k> { <rt> <q> }* <p0> <p1> <p2> <p3> <p4> }* }*    data::Wells entries
+        RC <n> { <well> <global index> }*                 regionCache.connections(region set, num)
+        N <0|1> <pressure> <converged pressure>           grp_nwrk.nodeData[node]
+        U <n> {...}*  K <n> {...}*                        as in sumfuns.node
+      -> same answers.  S = well / connection / completion / segment node, R = region node
     sumfuns.unit <KEY>               -> unit tag of the table entry | none
     sumfuns.class <KEY>              -> <stateIsTotal><configIsTotal> as two 0/1 digits
     sumfuns.tree  G <n> {...}        -> ok | inconsistent <group>   (parent pointers vs children lists)
@@ -103,6 +112,77 @@ def parseKeys : Nat → Toks → Option (List (String × Float × Float) × Toks
     pure ((k, p', i') :: rest, ts)
   | _, _ => none
 
+def parseSC : Nat → Toks → Option (List (String × List (Nat × Nat)) × Toks)
+  | 0, ts => some ([], ts)
+  | n + 1, w :: k :: r => do
+    let rec pairs : Nat → Toks → Option (List (Nat × Nat) × Toks)
+      | 0, ts => some ([], ts)
+      | m + 1, g :: c :: r => do
+        let (rest, ts) ← pairs m r
+        pure ((g.toNat!, c.toNat!) :: rest, ts)
+      | _, _ => none
+    let (ps, r1) ← pairs k.toNat! r
+    let (rest, ts) ← parseSC n r1
+    pure ((w, ps) :: rest, ts)
+  | _, _ => none
+
+def parseConnDyn : Nat → Toks → Option (List (ConnDyn Float) × Toks)
+  | 0, ts => some ([], ts)
+  | n + 1, idx :: k :: r => do
+    let (rates, r1) ← parseRates k.toNat! r
+    let (resv, r2) ← takeF r1
+    let (pr, r3) ← takeF r2
+    let (rest, ts) ← parseConnDyn n r3
+    pure ({ index := idx.toNat!, rates := rates, resv := resv, pressure := pr } :: rest, ts)
+  | _, _ => none
+
+def parseSegDyn : Nat → Toks → Option (List (SegDyn Float) × Toks)
+  | 0, ts => some ([], ts)
+  | n + 1, num :: k :: r => do
+    let (rates, r1) ← parseRates k.toNat! r
+    let (p0, r2) ← takeF r1
+    let (p1, r3) ← takeF r2
+    let (p2, r4) ← takeF r3
+    let (p3, r5) ← takeF r4
+    let (p4, r6) ← takeF r5
+    let (rest, ts) ← parseSegDyn n r6
+    pure ({ num := num.toNat!, rates := rates, press := [p0, p1, p2, p3, p4] } :: rest, ts)
+  | _, _ => none
+
+/-- data::Wells entries: name ↦ (shut, isProducer, connections, segments) -/
+def parseX : Nat → Toks → Option (List (String × WellDyn Float) × Toks)
+  | 0, ts => some ([], ts)
+  | n + 1, w :: st :: ty :: nc :: r => do
+    let (cs, r1) ← parseConnDyn nc.toNat! r
+    match r1 with
+    | ns :: r2 =>
+      let (ss, r3) ← parseSegDyn ns.toNat! r2
+      let (rest, ts) ← parseX n r3
+      pure ((w, { shut := st = "S", rates := [], isProducer := ty = "P", conns := cs, segs := ss }) :: rest, ts)
+    | [] => none
+  | _, _ => none
+
+def parseRC : Nat → Toks → Option (List (String × Nat) × Toks)
+  | 0, ts => some ([], ts)
+  | n + 1, w :: g :: r => do
+    let (rest, ts) ← parseRC n r
+    pure ((w, g.toNat!) :: rest, ts)
+  | _, _ => none
+
+def kindOf : String → Option Kind
+  | "S" => some .single | "G" => some .group | "F" => some .field | "R" => some .region | _ => none
+
+/-- attach schedule connections and the connection / segment results to the wells of the W section -/
+def enrich (ws : List (WellIn Float)) (sc : List (String × List (Nat × Nat)))
+    (xs : List (String × WellDyn Float)) : List (WellIn Float) :=
+  ws.map fun w =>
+    let sconns := ((sc.find? fun p => p.1 = w.name).map (·.2)).getD []
+    let dyn := w.dyn.map fun d =>
+      match xs.find? fun p => p.1 = w.name with
+      | some (_, x) => { d with isProducer := x.isProducer, conns := x.conns, segs := x.segs }
+      | none => d
+    { w with sconns := sconns, dyn := dyn }
+
 def catOf : String → Option Cat
   | "W" => some .well | "G" => some .group | "F" => some .field | _ => none
 
@@ -159,6 +239,64 @@ def handleNode (args : Toks) : Option String := do
     | _ => none
   | _ => none
 
+def answer (tol : Float) (ks : List (String × Float × Float)) (us : List (String × Float))
+    (value : String → Option (Float × String)) : String :=
+  let res : List (String × Option Float × Float) := ks.map fun (key, prev, impl) =>
+    match value key with
+    | none => (key, none, impl)
+    | some (v, u) =>
+      match us.find? (fun (p : String × Float) => p.1 = u) with
+      | none => (key, none, impl)
+      | some (_, f) => (key, some (stateUpdate key prev (fromSi f v)), impl)
+  let unm := res.filter fun (_, m, _) => m.isNone
+  if !unm.isEmpty then "unmodelled " ++ " ".intercalate (unm.map (·.1))
+  else
+    let bad := res.filter fun (_, m, impl) =>
+      match m with | some x => !agrees tol x impl | none => true
+    if bad.isEmpty then s!"ok {ks.length}"
+    else "differs " ++ " ".intercalate (bad.map fun (k, m, _) =>
+      k ++ "=" ++ (match m with | some x => showF x | none => "?"))
+
+def handleXNode (args : Toks) : Option String := do
+  match args with
+  | kind :: node :: num :: dts :: tols :: "G" :: ng :: r0 =>
+    let kind ← kindOf kind
+    let dt ← f64 dts
+    let tol ← f64 tols
+    let (gs, r1) ← parseGroups ng.toNat! r0
+    match r1 with
+    | "W" :: nw :: r2 =>
+      let (ws0, r3) ← parseWells nw.toNat! r2
+      match r3 with
+      | "SC" :: nsc :: r4 =>
+        let (sc, r5) ← parseSC nsc.toNat! r4
+        match r5 with
+        | "X" :: nx :: r6 =>
+          let (xs, r7) ← parseX nx.toNat! r6
+          match r7 with
+          | "RC" :: nrc :: r8 =>
+            let (rc, r9) ← parseRC nrc.toNat! r8
+            match r9 with
+            | "N" :: has :: p :: pc :: "U" :: nu :: r10 =>
+              let p ← f64 p
+              let pc ← f64 pc
+              let nodeP := if has = "1" then some (p, pc) else none
+              let (us, r11) ← parseUnits nu.toNat! r10
+              match r11 with
+              | "K" :: nk :: r12 =>
+                let (ks, r13) ← parseKeys nk.toNat! r12
+                if !r13.isEmpty then none
+                let ws := enrich ws0 sc xs
+                pure (answer tol ks us fun key =>
+                  xnodeValue gs ws kind node num.toNat! key dt xs rc nodeP)
+              | _ => none
+            | _ => none
+          | _ => none
+        | _ => none
+      | _ => none
+    | _ => none
+  | _ => none
+
 /-- `duration_cast<nanoseconds>(duration<double>(sec))`: `(int64) (sec * 1e9)` -/
 def toNanos (sec : Float) : Int := (sec * 1e9).toInt64.toInt
 
@@ -188,6 +326,7 @@ def handleTime (args : Toks) : Option String := do
 def handle (op : String) (args : List String) : String :=
   match op, args with
   | "sumfuns.node", _ => (handleNode args).getD "bad-op"
+  | "sumfuns.xnode", _ => (handleXNode args).getD "bad-op"
   | "sumfuns.time", _ => (handleTime args).getD "bad-op"
   | "sumfuns.unit", [key] =>
     match lookupFun key with
